@@ -35,10 +35,20 @@ def h_categorical(ctx, k, N, n_nan, pipeline, props):
     ctx.assume(mf <= 0.5)
     X = pd.DataFrame({"f": pd.Series(col, dtype=object)})
     y = pd.Series(ycol)
+    ordinal = pipeline.endswith("_ordinal")
     if pipeline == "categorical":
         d = CategoricalDiscretizer(["f"], min_freq=mf, copy=True, verbose=False)
-    else:
+    elif pipeline == "qualitative":
         d = QualitativeDiscretizer(["f"], min_freq=mf, copy=True, verbose=False)
+    elif pipeline == "qualitative_ordinal":
+        d = QualitativeDiscretizer([], min_freq=mf, ordinal_features=["f"], values_orders={"f": list(cats)}, copy=True, verbose=False)
+    elif pipeline == "discretizer_ordinal":
+        from AutoCarver.discretizers import Discretizer
+        d = Discretizer([], [], min_freq=mf, ordinal_features=["f"], values_orders={"f": list(cats)}, copy=True, verbose=False)
+    elif pipeline == "discretizer":
+        from AutoCarver.discretizers import Discretizer
+        d = Discretizer([], ["f"], min_freq=mf, copy=True, verbose=False)
+    x_before = X.copy()
     try:
         d.fit(X, y)
     except Violation:
@@ -47,9 +57,23 @@ def h_categorical(ctx, k, N, n_nan, pipeline, props):
         ctx.require(False, "C08.clean-input-rejected", f"{pipeline} fit raised AssertionError on a well-formed sample: {str(e)[:150]} (sizes {sizes})")
     except Exception as e:
         ctx.require(False, "C08.internal-error", f"{pipeline} fit raised {type(e).__name__}: {str(e)[:150]} (sizes {sizes})")
+    # ---- C08: per-feature attributes refer to exactly the kept features
+    feats = set(d.features)
+    for attr in ("values_orders", "input_dtypes", "labels_per_values", "features_dropna"):
+        ctx.require(set(getattr(d, attr).keys()) == feats, "C08.attributes-incoherent", f"{pipeline}: {attr} keys {sorted(getattr(d, attr).keys())} != features {sorted(feats)} (sizes {sizes})")
+    for attr in ("qualitative_features", "ordinal_features", "non_ordinal_features"):
+        if hasattr(d, attr):
+            ctx.require(set(getattr(d, attr)) <= feats, "C08.attributes-incoherent", f"{pipeline}: {attr} = {getattr(d, attr)} but features = {sorted(feats)}")
     if "f" not in d.features:
         ctx.require(max(sizes) / total < mf, "C09.feature-dropped", f"feature dropped although its largest modality holds {max(sizes)}/{total} >= min_freq")
+        try:
+            out = d.transform(X)
+        except Exception as e:
+            ctx.require(False, "C08.transform-after-fit", f"{pipeline}: transform after dropping the feature raised {type(e).__name__}: {str(e)[:120]}")
+        ctx.require(out["f"].equals(x_before["f"]) or list(out["f"].astype(str)) == list(x_before["f"].astype(str)), "C08.dropped-feature-touched", "a dropped feature's column was modified by transform")
         return dict(counters={"dropped": 1}, sample=dict(sizes=sizes, outcome="dropped"), result=dict(outcome="dropped"))
+    if ordinal:
+        return dict(counters={"ok": 1}, sample=dict(sizes=sizes, pipeline=pipeline), result=dict(n=len(d.values_orders["f"])))
     vo = d.values_orders["f"]
     groups = {l: list(vo.content[l]) for l in vo}
     # ---- C09: a value is in the default group iff it is rarer than min_freq; NaN separate
@@ -83,7 +107,7 @@ def obligation(tier, props, name):
             if N < k:
                 continue
             for n_nan in (0, 2):
-                for pipeline in ("categorical", "qualitative"):
+                for pipeline in ("categorical", "qualitative") + (("qualitative_ordinal", "discretizer_ordinal", "discretizer") if "C08" in props else ()):
                     jobs.append(dict(k=k, N=N, n_nan=n_nan, pipeline=pipeline, props=sorted(props)))
     return Obligation(
         name=name, harness=h_categorical, jobs=jobs,
